@@ -714,6 +714,9 @@ fn run_planted(st: &mut Stats, rng: &mut Rng, pl: &Planted) -> bool {
         let worst = dirs.iter().fold(0.0f64, |m, v| m.max(v.abs()));
         for i in 0..n { let s = if worst > 0.0 { theta * rho / worst } else { 0.0 }; guess[i] += s * dirs[i]; }
     }
+    // complex problems: guesses lying EXACTLY on the real (or imaginary) axis, where a real-looking derivative must not
+    // be mistaken for a real problem (kept only if still inside the ball, see the test on e0 below)
+    if cplx { match rng.below(10) { 0 | 1 | 2 => for i in 0..n { guess[2 * i + 1] = 0.0; }, 3 => for i in 0..n { guess[2 * i] = 0.0; }, _ => {} } }
     let dist0 = pdist(&guess, &pl.root, cplx);
     let e0 = dist0 * (1.0 + 1e-12) + pl.root_unc + 4.0 * U * b.xmax;
     if !(e0 <= rho * 1.001 + pl.root_unc + 4.0 * U * b.xmax) { st.count("skipped:guess-outside-ball"); return false; }
@@ -893,7 +896,7 @@ fn planted_scalar_cplx(rng: &mut Rng) -> Option<Planted> {
         }
         2 => {
             // z^2 - c with c = fl(r^2)
-            let r0 = (rng.logmag(0.3, 3.0), rng.sym() * 2.0);
+            let r0 = (rng.logmag(0.3, 3.0), rng.sym() * if rng.chance(0.35) { 0.15 } else { 2.0 });
             let c = cmul(r0, r0);
             let f: FnC = Rc::new(move |z| csub(cmul(z, z), c));
             let a0 = cab(r0);
@@ -910,7 +913,7 @@ fn planted_scalar_cplx(rng: &mut Rng) -> Option<Planted> {
         }
         4 => {
             // exp(z) - c with c = fl(exp(r))
-            let r0 = (rng.range(-1.5, 1.5), rng.range(-6.0, 6.0));
+            let r0 = (rng.range(-1.5, 1.5), if rng.chance(0.35) { rng.range(-0.15, 0.15) } else { rng.range(-6.0, 6.0) });
             let c = cexp(r0);
             let f: FnC = Rc::new(move |z| csub(cexp(z), c));
             Some(mk(format!("exp(z)-c[c={:?} root~{:?}]", c, r0), f, r0, 16.0 * U * (1.0 + cab(r0)), 1.0,
@@ -918,7 +921,7 @@ fn planted_scalar_cplx(rng: &mut Rng) -> Option<Planted> {
         }
         _ => {
             let phi = *rng.pick(&[Phi::Sin, Phi::Exp, Phi::Sq, Phi::Cube]);
-            let r0 = (rng.range(-2.0, 2.0), rng.range(-1.5, 1.5));
+            let r0 = (rng.range(-2.0, 2.0), if rng.chance(0.3) { rng.range(-0.15, 0.15) } else { rng.range(-1.5, 1.5) });
             let a = (rng.logmag(0.5, 3.0), rng.sym() * 2.0);
             let aa = cab(a);
             let (l1, _, _) = phi.sup(cab(r0) + 1.0, r0.1.abs() + 1.0, r0.0 + 1.0);
@@ -992,6 +995,10 @@ fn planted_system(rng: &mut Rng, cplx: bool, use_jac: bool) -> Option<Planted> {
     let sigma = if rng.bool() { (0..n).collect::<Vec<usize>>() } else { rng.perm(n) };
     let cform = rng.bool();
     let offs = rng.logpos(0.05, 1.5);
+    // sparsity pattern of the linear part: general, lower / upper Hessenberg, tridiagonal, lower / upper triangular plus one
+    // off-diagonal (one-sided couplings that a structure-exploiting linear solve must not drop)
+    let pat = rng.below(8);
+    let masked = move |i: usize, j: usize| -> bool { match pat { 2 => j >= i + 2, 3 => i >= j + 2, 4 => j >= i + 2 || i >= j + 2, 5 => j > i + 1 || (i > j && (i - j) % 2 == 1), 6 => i > j + 1 || (j > i && (j - i) % 2 == 1), _ => false } };
     if !cplx {
         let g = *rng.pick(&[G::Comp(Phi::Sin), G::Comp(Phi::Tanh), G::Comp(Phi::Sq), G::Prod, G::Comp(Phi::Atan), G::Comp(Phi::Exp)]);
         let mut a = vec![vec![0.0; n]; n];
@@ -999,7 +1006,7 @@ fn planted_system(rng: &mut Rng, cplx: bool, use_jac: bool) -> Option<Planted> {
         let mut anorm = 0.0f64;
         for i in 0..n {
             let mut s = 0.0;
-            for j in 0..n { if j != i { a[i][j] = if rng.chance(0.25) { 0.0 } else { rng.sym() * offs }; s += a[i][j].abs(); } }
+            for j in 0..n { if j != i { a[i][j] = if masked(i, j) || rng.chance(if pat >= 2 { 0.1 } else { 0.25 }) { 0.0 } else { rng.sym() * offs }; s += a[i][j].abs(); } }
             let marg = rng.range(0.5, 3.0);
             a[i][i] = (s + marg) * if rng.bool() { 1.0 } else { -1.0 };
             alpha = alpha.min((a[i][i].abs() - s) * (1.0 - 16.0 * U));
@@ -1040,7 +1047,7 @@ fn planted_system(rng: &mut Rng, cplx: bool, use_jac: bool) -> Option<Planted> {
         let mut anorm = 0.0f64;
         for i in 0..n {
             let mut s = 0.0;
-            for j in 0..n { if j != i { a[i][j] = if rng.chance(0.25) { (0.0, 0.0) } else { (rng.sym() * offs, rng.sym() * offs) }; s += cab(a[i][j]); } }
+            for j in 0..n { if j != i { a[i][j] = if masked(i, j) || rng.chance(if pat >= 2 { 0.1 } else { 0.25 }) { (0.0, 0.0) } else { (rng.sym() * offs, rng.sym() * offs) }; s += cab(a[i][j]); } }
             let marg = rng.range(0.5, 3.0);
             let ph = rng.range(0.0, std::f64::consts::TAU);
             a[i][i] = ((s + marg) * ph.cos(), (s + marg) * ph.sin());
